@@ -10,7 +10,6 @@ import (
 	"github.com/hashicorp/consul/internal/verifmc/c01"
 	"github.com/hashicorp/consul/internal/verifmc/c02"
 	"github.com/hashicorp/consul/internal/verifmc/c04"
-	"github.com/hashicorp/consul/internal/verifmc/c06"
 	"github.com/hashicorp/consul/internal/verifmc/c07"
 	"github.com/hashicorp/consul/internal/verifmc/c08"
 	"github.com/hashicorp/consul/internal/verifmc/c15"
@@ -28,7 +27,6 @@ var checks = map[string]checkDef{
 	"C01": {"model_checking", c01.Run},
 	"C02": {"model_checking", c02.Run},
 	"C04": {"model_checking", c04.Run},
-	"C06": {"model_checking", c06.Run},
 	"C07": {"model_checking", c07.Run},
 	"C08": {"exploration", c08.Run},
 	"C15": {"exploration", c15.Run},
